@@ -62,6 +62,7 @@ var (
 	flagOut       = flag.String("out", "", "result file")
 	flagReplayDir = flag.String("replaydir", "", "directory for replay files")
 	flagReplay    = flag.String("replay", "", "replay file to re-execute")
+	flagReplayOut = flag.String("replayout", "", "with -replay: where to write the case as executed (schedule tape included) when it shows a violation")
 	flagDigests   = flag.Bool("digests", false, "print per-run digests only")
 	flagTags      = flag.String("tags", "verif", "build tags this binary was built with (informational)")
 	flagSites     = flag.Int("sites", 50000, "number of yield sites")
@@ -247,7 +248,21 @@ func doReplay(path string) int {
 		}
 		v, _ = execC19(rf.C19, nil)
 	case rf.C18 != nil:
-		v = replayC18(rf.C18)
+		if rf.C18.ConcFirst && len(rf.C18.Tape) == 0 {
+			// first execution of a concurrent-run-first case (spawned by a worker): the schedule is drawn here
+			before := raceLogSize()
+			v, _ = execC18(rf.C18, *flagTier, false, nil)
+			if v == nil && raceLogSize() > before {
+				if rep := raceLogTail(before); raceInLibrary(rep) {
+					v = &Violation{Property: "C18", Kind: "race", Class: "race", FailOp: raceFuncs(rep), Detail: rep, Ops: allOpNames(rf.C18)}
+				}
+			}
+		} else {
+			v = replayC18(rf.C18)
+		}
+		if v != nil && *flagReplayOut != "" {
+			writeJSON(*flagReplayOut, &ReplayFile{Property: "C18", Violation: v, Seed: rf.Seed, Run: rf.Run, Tags: rf.Tags, C18: rf.C18})
+		}
 	case rf.C14 != nil:
 		v = replayC14(rf.C14)
 	}
